@@ -90,6 +90,7 @@ func c13(r *lp.Run) {
 	c := &c13ctx{r: r}
 	rng := r.Rng.Fork(13)
 	c13Generated(r)
+	c13Unix(r, r.Rng.Fork(1301))
 
 	// ---- integers: exhaustive small widths ----
 	for v := math.MinInt16; v <= math.MaxInt16; v++ {
